@@ -192,6 +192,9 @@ impl World {
     pub fn event(&self, text: impl Into<String>) {
         let text = text.into();
         let now = self.now_ns();
+        if std::env::var("VERIF_TRACE_FABRIC").is_ok() {
+            eprintln!("{now} EV {text}");
+        }
         let mut w = self.inner.lock().unwrap();
         w.sig.push_bytes(text.as_bytes());
         w.events.push((now, text));
